@@ -198,7 +198,11 @@ impl Axecutor {
                         )));
                     }
 
-                    let memsz = round_up_to_page_size(segment.p_memsz);
+                    // The area ends where the segment's last page ends. For a segment that does not start on a page
+                    // boundary that is less than a whole number of pages after p_vaddr: otherwise the area would reach
+                    // into the next page, which may belong to the following segment
+                    let page_offset = segment.p_vaddr & 0xfff;
+                    let memsz = round_up_to_page_size(page_offset + segment.p_memsz) - page_offset;
 
                     if memsz == segment.p_filesz {
                         axecutor.mem_init_area_named(
